@@ -304,7 +304,8 @@ class StepResult:
             return
         if model is None:
             model = ex.model_for(cond_violated if cond_violated is not None else True)
-        ex.acc.add('failures', dict(prop=prop, what=what, model=model, detail=detail))
+        props = (prop,) if isinstance(prop, str) else tuple(prop)
+        ex.acc.add('failures', dict(prop=props[0], props=props, what=what, model=model, detail=detail))
 
     def collect(self, ex):
         a = ex.acc
@@ -331,7 +332,7 @@ def explore_step(prog, d, tables, N, start, *, partial=False, props=None, is_rel
     is_str = d.utf8
     safe_build = any('from_slice' in (f['name'] if f else '') for f in prog.fns.values())
 
-    def prove(prop, what, claim, detail=None):
+    def prove(prop, what, claim, detail=None):    # prop: id or tuple of ids the failed obligation belongs to
         """PC => claim ?  (claim: bool or z3)"""
         if ex.acc.n('failures') >= max_failures:
             return
@@ -378,7 +379,7 @@ def explore_step(prog, d, tables, N, start, *, partial=False, props=None, is_rel
                 res.fail(ex, 'C03', f'{kind} span starts at {ss} but the previous item ended at {pos}')
             if not (ee > ss):
                 res.fail(ex, 'C03', f'{kind} span {ss}..{ee} is empty')
-            prove('C03', f'{kind} span {ss}..{ee} ends beyond the source', simp(z3.ULE(bvv(ee, U), ex.len)))
+            prove(('C03', 'C05'), f'{kind} span {ss}..{ee} ends beyond the source', simp(z3.ULE(bvv(ee, U), ex.len)))
             pos = ee
         # ---- per-attempt reference obligations
         for ai, (t, evs, (kind, ss, ee)) in enumerate(attempts):
@@ -503,7 +504,8 @@ def explore_step(prog, d, tables, N, start, *, partial=False, props=None, is_rel
                 prove('C14', 'remainder() does not extend to the end of the source',
                       simp(as_bv(rem.len, U) + bvv(e, U) == ex.len))
         except Panic as pn:
-            res.fail(ex, 'C04', f'slice()/remainder() panicked after {item[0]} {s}..{e}: {pn.msg[:80]}')
+            res.fail(ex, ('C04', 'C05') if is_str else ('C05',),
+                     f'slice()/remainder() panicked after {item[0]} {s}..{e}: {pn.msg[:80]}')
         if is_str:
             prove('C04', f'span start {s} is not a char boundary', is_boundary_term(ex, s))
             prove('C04', f'span end {e} is not a char boundary', is_boundary_term(ex, e))
@@ -537,7 +539,7 @@ def explore_step(prog, d, tables, N, start, *, partial=False, props=None, is_rel
         else:
             kind, msg, model = leaf[1]
             a.count('kinds', 'ub:' + kind)
-            prop = {'oob': 'C05', 'get_unchecked': 'C04' if is_str else 'C05', 'steps': 'C03',
+            prop = {'oob': 'C05', 'get_unchecked': ('C04', 'C05') if is_str else 'C05', 'steps': 'C03',
                     'unreachable': 'C05', 'assume': 'C05'}.get(kind, 'C05')
             res.fail(ex, prop, msg, model=model)
 
